@@ -438,7 +438,7 @@ func init() {
 			// Batch.Read returns values only: offsets are taken from Batch.Offset()
 			b := e.conn.ReadBatchWith(readBatchCfg(e))
 			res := opResult{batch: true}
-			buf := make([]byte, 1<<17)
+			buf := make([]byte, 1<<18)
 			for len(res.msgs) < 10000 {
 				n, err := b.Read(buf)
 				if err != nil {
@@ -480,7 +480,7 @@ func init() {
 		targets: []target{{1, 0}},
 		call: func(e *env) opResult {
 			res := opResult{batch: true, single: true}
-			buf := make([]byte, 1<<17)
+			buf := make([]byte, 1<<18)
 			n, err := e.conn.Read(buf)
 			if err != nil {
 				res.closeErr = err
@@ -1048,7 +1048,8 @@ func TestConnFetchGenerated(t *testing.T) {
 		l := logsim.Gen(t, o)
 		g := connCase{Op: rapid.SampledFrom([]string{"ReadBatch", "ReadBatch", "ReadBatch", "ReadBatchRead", "ConnReadMessage"}).Draw(t, "op"), Ver: ver, TKey: 1, Log: l.Batches}
 		g.MaxBytes = rapid.SampledFrom([]int{1 << 20, 1 << 20, 60, 200, 700}).Draw(t, "maxBytes")
-		g.Start = int64(rapid.IntRange(0, int(l.End)).Draw(t, "start"))
+		// the last offset is excluded: a fetch at the end of the log is answered only after the long poll
+		g.Start = int64(rapid.IntRange(0, int(l.End)-1).Draw(t, "start"))
 		if g.Op == "ReadBatchRead" {
 			// Batch.Read yields values only; holes make the positional comparison meaningless
 			g.Start = 0
